@@ -248,7 +248,8 @@ func (s *c12) Final(w *World) *Violation {
 		// a stream that ends where a message could have ended (nothing, or nothing after a
 		// complete length prefix: plain io.EOF) is an ended stream, not a malformed message;
 		// one that ends inside the prefix or inside the body (io.ErrUnexpectedEOF) is malformed
-		if wm.Err != nil && wm.Err != io.EOF {
+		// (a complete frame whose content does not decode is malformed whatever error the decoder names, io.EOF included)
+		if wm.Err != nil && (wm.Err != io.EOF || frameComplete(wm.Raw)) {
 			wantErrA++
 			// ... and its stream is reset by the node
 			if wm.Delivered != 0 && w.Net.ResetWhy(wm.Stream) != "reset by reader" {
@@ -283,4 +284,10 @@ func mapNode(m map[string]datamodel.Node) datamodel.Node {
 	}
 	_ = ma.Finish()
 	return nb.Build()
+}
+
+// frameComplete: the bytes hold a whole length-prefixed frame (so a decode failure is about its content).
+func frameComplete(raw []byte) bool {
+	l, n := binary.Uvarint(raw)
+	return n > 0 && l > 0 && uint64(len(raw)-n) >= l
 }
